@@ -175,6 +175,9 @@ func distCli(rows [][]int, o distOpts, r []int, cpus int) (ev distEvent, ok bool
 	// whatever the command keeps from one alignment to the next (clamped ranges, models) meets different data
 	in := fastaRows(rows)
 	multi := len(rows) >= 3 && len(rows[0]) >= 1 && (len(rows)+len(rows[0])+cpus+r[1]+r[3])%2 == 0
+	if len(rows) >= 3 && len(rows[0]) >= 1 && r[0] >= 0 && (r[1] >= len(rows)-1 || r[3] >= len(rows)-1) {
+		multi = true // a range reaching the last row: always behind the shorter alignment (a range clamped there must not stay clamped)
+	}
 	if multi {
 		argv = append(argv, "-p")
 		in = append(phylipRows(rows[:len(rows)-1]), phylipRows(rows)...)
@@ -523,7 +526,7 @@ func distFamily(env *Env) error {
 		base := distCall(rows, o, r, cpus)
 		base.ID = id
 		env.Emit(base)
-		if cliSampled(i) {
+		if cliSampled(i) || (goalignBin != "" && r[0] >= 0 && len(o.Wts) == 0) { // (ranged cases are rare: all of them are asked of the command too)
 			if ce, ok := distCli(rows, o, r, cpus); ok {
 				ce.ID = id + ":cli"
 				env.Emit(ce)
